@@ -303,7 +303,7 @@ func (o *c07Oracle) after(ch *chain, ci *callInfo) *Violation {
 	return nil
 }
 
-var c07Profile = &histProfile{Scripts: true, Batches: true, OwnerBias: 3, MaxBlocks: 16, MinBlocksOf: []int{2, 6, 10}, Evidence: 2, Missed: 1, Restart: 0, MaxTxs: 4,
+var c07Profile = &histProfile{ScriptGov: []string{"raisemin", "lowermin", "lowermax"}, ScriptTemplates: slashStateTemplates, Scripts: true, Batches: true, OwnerBias: 3, MaxBlocks: 16, MinBlocksOf: []int{2, 6, 10}, Evidence: 2, Missed: 1, Restart: 0, MaxTxs: 4,
 	TxKinds: []string{"burn", "burn", "burn", "stake", "unstake", "unjail", "award", "send", "param"}, Windows: []int64{10, 10, 12}}
 
 func genC07(t *rapid.T, tier string) interface{} {
